@@ -124,6 +124,11 @@ def run(ctx):
     triples += [awc2 + (ix[c],) for c in ("ro(w2;n)", "del(w2)")]
     # three clients that all need world w2, which does not exist yet (creation race in FindOrCreateWorld)
     triples += [(ix["ro(w2;n)"], ix["add(w2;f1,k)"], ix["rmif(w2;m->n)"]), (ix["ro(w2;n)"], ix["ro(w2;n)"], ix["add(w2;f1,k)"])]
+    # a change computed from a world that an earlier request modified, with a request that removes or replaces that
+    # world: run with the third request inside the second one's read->write upgrade gap (gap schedules below)
+    GAP_TRIPLES = [("add(w1;f2,k)", "addif(w1;k->m)", "del(w1)"), ("add(w1;f2,k)", "addif(w1;k->m)", "awc(w2;w1:f1,k)"),
+                   ("rm(w1;f1,n)", "rmif(w1;n->m)", "del(w1)"), ("add(w1;f2,k)", "addif(w1;k->m)", "rm(w1;f1,m)")]
+    triples += [tuple(ix[x] for x in t) for t in GAP_TRIPLES]
     triples = sorted(set(tuple(sorted(t)) for t in triples))
     cfgs = pairs + triples
     reqs_of = lambda g: [CATALOGUE[i - 1] if i else sl.IDLE for i in g]
@@ -235,10 +240,52 @@ def run(ctx):
                       "reps": 1, "cause": cause(g)})
             add(c)
             ngated += 1
+    # (c2) gap schedules: request B runs from start to end inside the read->write upgrade gap of request A (after an
+    # optional request P has run to its end); whatever the real code leaves must be a final the protocol model
+    # reaches for that configuration.  These are schedules whose model outcome is SERIAL as a rule, so (c) never
+    # replays them: they bind the code to the model's statement "a change is applied to the world object found at
+    # the start, also when that world has been deleted or replaced in the meantime".
+    UPG = {"add", "rm", "addif", "rmif", "addpt", "add2", "merge", "badpt"}
+
+    def full(cl, r):
+        if r["k"] == "del":
+            return [[cl, "delete"]]
+        if r["k"] == "list":
+            return [[cl, "list"]]
+        ev = [[cl, "rlock"], [cl, "find"], [cl, "eval"]]
+        if r["k"] == "awc":
+            ev += [[cl, "awcfind"], [cl, "awcapply"]]
+        elif r["k"] in UPG:
+            ev += [[cl, "lock"], [cl, "rlock2"]]
+        return ev
+    ngap = 0
+    gap_cfgs = list(pairs) + [tuple(sorted(ix[x] for x in t)) for t in GAP_TRIPLES]
+    for g in gap_cfgs:
+        rs = reqs_of(g)
+        live = [i + 1 for i in range(3) if g[i]]
+        for a in live:
+            if rs[a - 1]["k"] not in UPG:
+                continue
+            for b in live:
+                if b == a:
+                    continue
+                pre = [c for c in live if c not in (a, b)]
+                if g[0] == 0 and g[1] == g[2] and a > b:
+                    continue
+                sched = []
+                for c in pre:
+                    sched += full(c, rs[c - 1])
+                sched += [[a, "rlock"], [a, "find"], [a, "eval"]] + full(b, rs[b - 1]) + [[a, "lock"], [a, "rlock2"]]
+                c = sl.base_case(rs, "gated")
+                c.update({"serial": sorted(serial[g]), "model": sorted(model[g]), "sched": sched, "want": "",
+                          "reps": 1, "cause": cause(g) if g in nonserial else "", "gap": [pre, a, b]})
+                add(c)
+                ngap += 1
+    ctx.extra_cov["gap_schedules"] = ngap if hooks else 0
     ctx.sample({"requests": cases[0]["sig"], "mode": "serial", "order": cases[0]["order"], "expected_final": cases[0]["final"]})
     ctx.sample({"requests": cases[nserial]["sig"], "mode": "concurrent", "serial_outcomes": cases[nserial]["serial"]})
     if ngated:
-        gc = cases[nserial + nconc]
+        gc = cases[nserial + nconc]  # the first gated case
         ctx.sample({"requests": gc["sig"], "mode": "gated", "schedule": gc["sched"], "model_final": gc["want"],
                     "serial_outcomes": gc["serial"]})
     vs = ctx.run_cases(binary, "service", cases, timeout_ms=120000, workers=10)
